@@ -357,3 +357,107 @@ def launch_replay(pid, unit, name, locator, kernel, args, goal, env=None, extra_
     return (not ok), path
 
   return _rp
+
+
+# ------------------------------------------------------------------------------------------------ function-level harness
+
+
+class MemoInterp(core.Interp):
+  """Interp with sqrt memoised per radicand (sqrt is a function) and a table of known roots (radicand sexpr -> root)."""
+
+  def __init__(self, roots=None, **kw):
+    super().__init__(**kw)
+    self.roots = dict(roots or {})
+    self.divs = {}
+
+  def sqrt(self, x):
+    if is_sym(x):
+      key = x.sexpr()
+      if key in self.roots:
+        return self.roots[key]
+      s = super().sqrt(x)
+      self.roots[key] = s
+      return s
+    return super().sqrt(x)
+
+
+def safe_div_contract(interp, frame, args):
+  """math.safe_div(x, y) = x / (y if y != 0 else MJ_MINVAL) as a polynomial contract, memoised per (x, y)"""
+  from mujoco_warp._src import types
+
+  x, y = core.to_z3(args[0], "real"), core.to_z3(args[1], "real")
+  key = (x.sexpr(), y.sexpr())
+  if key in interp.divs:
+    return interp.divs[key]
+  q = z3.Real(f"sdiv!{next(interp.fresh)}")
+  interp.assumes.append(z3.Implies(y != 0, q * y == x))
+  interp.assumes.append(z3.Implies(y == 0, q * z3.RealVal(repr(float(types.MJ_MINVAL))) == x))
+  interp.divs[key] = q
+  return q
+
+
+def func_interp(roots=None):
+  from mujoco_warp._src import math as mjmath
+
+  return MemoInterp(roots=roots, unroll=8, summaries={mjmath.safe_div.key: safe_div_contract})
+
+
+def eval_scalar(kind, it, jar, D, fl):
+  """REAL _eval_constraint on a non-elliptic row with the arguments the kernel passes (gather/scalar).  -> (force, state, cost)"""
+  from mujoco_warp._src import solver
+
+  r = it.call_pyfunc(solver._eval_constraint.func, [kind == "equality", kind == "friction", False, jar, D, (fl if kind == "friction" else 0.0), 0, -1, 0.0, 0.0, 0.0, 0.0, 0.0], name="_eval_constraint")
+  return r.c[0], r.c[1], r.c[2]
+
+
+def elliptic_args(jar, D, mu, fr, TT=None):
+  """argument lists of the dim _eval_constraint calls of an elliptic contact (what gather/elliptic proves the kernel passes)"""
+  N, U, TTp = elliptic_terms(jar, mu, fr)
+  TT = TTp if TT is None else TT
+  return [[False, False, True, jar[j], D[j], 0.0, j, 0, jar[0], D[0], mu, (0.0 if j == 0 else mul(U[j - 1], fr[j - 1])), TT] for j in range(len(jar))]
+
+
+_RUNNER = []
+
+
+def eval_runner():
+  """tiny kernel around the REAL solver._eval_constraint (replays of function-level queries)"""
+  import warp as wp
+
+  from mujoco_warp._src import solver
+
+  if not _RUNNER:
+    ev = solver._eval_constraint
+
+    @wp.kernel
+    def c06_eval_runner(flags: wp.array2d[int], x: wp.array2d[float], out: wp.array[wp.vec3]):
+      i = wp.tid()
+      out[i] = ev(flags[i, 0] != 0, flags[i, 1] != 0, flags[i, 2] != 0, x[i, 0], x[i, 1], x[i, 2], flags[i, 3], flags[i, 4], x[i, 3], x[i, 4], x[i, 5], x[i, 6], x[i, 7])
+
+    _RUNNER.append(c06_eval_runner)
+  return _RUNNER[0]
+
+
+def real_eval(arglists):
+  """run the real _eval_constraint on concrete argument lists -> [(force, state, cost)]"""
+  import warp as wp
+
+  n = len(arglists)
+  flags = np.zeros((n, 5), dtype=np.int32)
+  x = np.zeros((n, 8), dtype=np.float32)
+  for i, a in enumerate(arglists):
+    flags[i] = [int(bool(a[0])), int(bool(a[1])), int(bool(a[2])), int(a[6]), int(a[7])]
+    x[i] = [float(a[3]), float(a[4]), float(a[5]), float(a[8]), float(a[9]), float(a[10]), float(a[11]), float(a[12])]
+  out = wp.zeros(n, dtype=wp.vec3)
+  wp.launch(eval_runner(), dim=n, inputs=[wp.array(flags, dtype=int), wp.array(x, dtype=float)], outputs=[out], device="cpu")
+  wp.synchronize()
+  return [(float(r[0]), int(round(float(r[1]))), float(r[2])) for r in out.numpy()]
+
+
+def write_replay(pid, unit, name, payload):
+  d = os.path.join(report.VERIF, "replays", pid)
+  os.makedirs(d, exist_ok=True)
+  path = os.path.join(d, f"{unit}.{name}".replace("/", "_").replace(" ", "_")[:120] + ".json")
+  with open(path, "w") as fh:
+    json.dump(dict(payload, property=pid, unit=unit, query=name), fh, default=str)
+  return path
